@@ -232,8 +232,14 @@ impl<C: ConfigurationAccess> PciRoot<C> {
         }
 
         // Disable address decoding while sizing the BAR.
-        let (_status, command_orig) = self.get_status_command(device_function);
-        let command_disable_decode = command_orig & !(Command::IO_SPACE | Command::MEMORY_SPACE);
+        // Keep command bits which have no named flag (`get_status_command` drops them), so that
+        // the register is restored to exactly its original value below.
+        let command_orig = Command::from_bits_retain(
+            self.configuration_access
+                .read_word(device_function, STATUS_COMMAND_OFFSET) as u16,
+        );
+        let command_disable_decode =
+            command_orig.difference(Command::IO_SPACE | Command::MEMORY_SPACE);
         if command_disable_decode != command_orig {
             self.set_command(device_function, command_disable_decode);
         }
